@@ -160,6 +160,7 @@ func main() {
 			break
 		}
 		if md := os.Getenv("C15_MAXDEPTH"); md != "" && fmt.Sprint(depth) == md {
+			depth++
 			break
 		}
 	}
